@@ -563,7 +563,7 @@ func scenarios() []*scenario {
 		}
 		sc := &scenario{name: "one-prefix-limit1", cfg: cfg, router: R, limitOf: limitFrom(cfg()),
 			probes: []netip.Addr{P1, P2, D1, D2, D3, X, ip("fd10:4::2"), ip("fd77::1")},
-			depth: [2]int{4, 5}, maxState: [2]int{60000, 1500000}}
+			depth: [2]int{4, 6}, maxState: [2]int{60000, 2500000}}
 		add := func(o op) { sc.ops = append(sc.ops, o) }
 		add(op{kind: opAddPeer, dst: P1, name: "AddPeer(P1)"})
 		add(op{kind: opAddPeer, dst: P2, name: "AddPeer(P2)"})
